@@ -71,7 +71,7 @@ package callbacks
 //@   ensures skip-means-nothing: old(db.Config.SkipDefaultTransaction) ==> commits == old(commits) && rollbacks == old(rollbacks) [C19,C05]
 
 //@ # ---------- C13: hooks ----------
-//@ ghost hookCalls pendingHookErr
+//@ ghost hookCalls pendingHookErr hooksRun
 //@ event callparam fc
 //@   in callbacks.callMethod
 //@   do hookCalls = hookCalls + 1
@@ -95,22 +95,31 @@ package callbacks
 
 //@ event invoke BeforeSaveInterface.BeforeSave
 //@   do pendingHookErr = 1
+//@   do hooksRun = hooksRun + 1
 //@ event invoke BeforeCreateInterface.BeforeCreate
 //@   do pendingHookErr = 1
+//@   do hooksRun = hooksRun + 1
 //@ event invoke AfterCreateInterface.AfterCreate
 //@   do pendingHookErr = 1
+//@   do hooksRun = hooksRun + 1
 //@ event invoke AfterSaveInterface.AfterSave
 //@   do pendingHookErr = 1
+//@   do hooksRun = hooksRun + 1
 //@ event invoke BeforeUpdateInterface.BeforeUpdate
 //@   do pendingHookErr = 1
+//@   do hooksRun = hooksRun + 1
 //@ event invoke AfterUpdateInterface.AfterUpdate
 //@   do pendingHookErr = 1
+//@   do hooksRun = hooksRun + 1
 //@ event invoke BeforeDeleteInterface.BeforeDelete
 //@   do pendingHookErr = 1
+//@   do hooksRun = hooksRun + 1
 //@ event invoke AfterDeleteInterface.AfterDelete
 //@   do pendingHookErr = 1
+//@   do hooksRun = hooksRun + 1
 //@ event invoke AfterFindInterface.AfterFind
 //@   do pendingHookErr = 1
+//@   do hooksRun = hooksRun + 1
 //@ event call gorm.(*DB).AddError
 //@   do pendingHookErr = 0
 
@@ -118,6 +127,7 @@ package callbacks
 //@   tags C13
 //@   requires pendingHookErr == 0
 //@   ensures every-hook-error-is-recorded: pendingHookErr == 0
+//@   ensures a-hook-that-ran-is-reported: hooksRun > old(hooksRun) ==> result
 //@ immutable DB.Statement
 //@   writers gorm.(*DB).Session gorm.(*DB).getInstance gorm.Open gorm.(*DB).Begin gorm.(*DB).*
 //@   tags C13
@@ -236,6 +246,25 @@ package callbacks
 //@   min-sites 3
 //@   assert joins-below-the-relation: defined(nestedJoins) ==> arg1 == nestedJoins && arg0 == tx [C11]
 //@   assert embedded-relations-stay-on-this-level: !defined(nestedJoins) ==> arg1 == joins && arg0 == db [C11]
+
+//@ # ---------- C16/C03: the generated key is read back only for a row that was inserted ----------
+//@ # After INSERT ... ON CONFLICT DO NOTHING stored nothing the driver's LastInsertId still names the connection's
+//@ # previous insert: it must not be written into the record (a later Save would overwrite that other row).
+//@ site key-read-back-only-after-an-insert
+//@   match invoke Result.LastInsertId
+//@   in callbacks.Create$1
+//@   min-sites 1
+//@   assert a-row-was-inserted: db.RowsAffected != 0 [C16,C03]
+
+//@ # ---------- C15: every read path selects the model's own columns when tables are joined ----------
+//@ # Joins may come from Joins(...) or from an explicit clause.From{Joins: ...}: in both cases SELECT is narrowed to
+//@ # the model's columns, or same-named columns of the joined table would overwrite the model's fields for Find/First
+//@ # but not for Pluck/Count. The plain FROM is only used when there is no join of either kind.
+//@ site plain-from-only-without-joins
+//@   match call gorm.(*Statement).AddClauseIfNotExists
+//@   in callbacks.BuildQuerySQL
+//@   min-sites 2
+//@   assert no-join-of-either-kind: is(arg1, clause.From) ==> len(db.Statement.Joins) == 0 && len(fromClause.Joins) == 0 [C15]
 
 //@ # ---------- C13: association values saved once per operation ----------
 //@ # "Each hook fires exactly once per record": a record reached twice through associations in one Create/Update
